@@ -16,14 +16,21 @@ def concerns(sig, text):
         return True
     if ".nb-" in sig and ("out" in what):
         return True
+    if sig.startswith("mq.nb_"):
+        return True
     return False
 
 
 def run(v, tier, rng):
     thorough = tier == "thorough"
-    run_members(v, MEMBERS, tier, rng, concerns, 1.0 if thorough else 0.25)
+    px = run_members(v, MEMBERS, tier, rng, concerns, 1.0 if thorough else 0.25)
+    # raw sockets (xreq, xrep, xsub, xsurveyor, xrespondent, polyamorous pair) hand out the pollables of their message queues:
+    # Msgq.tla defines readable / writable as "a non-blocking get / put issued now would succeed"
+    from checks import c18
+    log("---- msgq part of c18 (as part of C15)")
+    c18.run_parts(px, tier, rng, ("mq",))
     v.cov["distinct_nontrivial"] = sum(x.get("walks", 0) for x in v.cov.get("edge_cover", {}).values())
     v.cov["rule"] = ("quiescent points of replayed behaviours at which poll(2) on both descriptors and the results of non-blocking "
                      "calls were compared with the specification; distinct = replayed walks")
-    v.assumptions += ["xsub/xpub/xreq/xrep/xsurvey/xrespond raw sockets use the generic message-queue pollables (covered by C18's msgq "
-                      "specification), not re-checked here", "readiness is compared at quiescent points of macro steps"]
+    v.assumptions += ["raw sockets (xreq/xrep/xsub/xsurvey/xrespond/pair1-poly) are covered at their message queues (data/Msgq.tla: poll "
+                      "descriptors of nni_msgq and zero-timeout put/get), not through an open raw socket", "readiness is compared at quiescent points of macro steps"]
